@@ -19,6 +19,17 @@ func c20w(cat, form, ctx string) json.RawMessage {
 	return rawJSON(&C20Case{Cat: cat, Form: form, Ctx: ctx, Import: "plain"})
 }
 
+// specD35: a library value mentioning int8, used from a package that redeclares int8.
+func specD35() *Spec {
+	s := &Spec{ImportAlias: map[int]string{}, Pkgs: []Pkg{{Name: "app"}, {Dir: "lib", Name: "lib"}}}
+	s.PkgExtra = map[int]string{0: "type int8 = int16\n", 1: "var X = 7\n"}
+	ii := addItem(s, Item{Kind: "value", Expr: "int(int8(X*40 + 42))", Out: Basic("int"), ExprClass: "inaccessible"})
+	s.Sets = []Set{{Pkg: 1, Name: "VSet", Args: []Ref{RItem(ii)}, AliasOf: -1}}
+	s.Injectors = []Injector{{Name: "Inject", Out: Basic("int"), Args: []Ref{RSet(0)}, Panic: true}}
+	refreshPlan(s)
+	return s
+}
+
 // specD31: a provider from a package called init.
 func specD31() *Spec {
 	s := &Spec{ImportAlias: map[int]string{1: "boot"}, Pkgs: []Pkg{{Name: "app"}, {Dir: "boot/init", Name: "init"}}}
@@ -210,6 +221,7 @@ func WriteFindings(commits map[string]string) error {
 			rawJSON(&C20Case{Cat: "injector", Form: "func Inject() S { (wire.Build)(NewS); return S{} }", Import: "plain"})),
 		fixed("D34", "C17", "D34", "wire check -tags extra,zzother ./pa (the comma-separated form the usage text advertises): the go command rejects the mixed list \"wireinject extra,zzother\" and every sub-command fails for every package", "C17 exit status differs from the command-line contract",
 			rawJSON(&CLICase{Pkgs: []cliPkg{{Name: "pa", Kind: "ok"}}, Steps: []CLIStep{{Op: "check", Opts: cliOpts{Tags: "extra,zzother"}}, {Op: "gen", Opts: cliOpts{Tags: "extra,zzother"}}}})),
+		fixed("D35", "C13", "D35", "wire.Value(int(int8(X*40 + 42))) written in package lib, injector in a package that declares type int8 = int16: the expression was copied with the predeclared identifier left bare and the injector provided another value than the one written", "C13 program the documented rules reject was accepted", rawJSON(specD35())),
 		known("D15", "C20", "injector body with extra statements: the invalid-injector diagnostic of `wire gen` carries no file:line:col position (its text is pinned by golden file InvalidInjector of the repository's suite, so a repair would change an expected output)", "C20 failure without a positioned diagnostic",
 			rawJSON(&C20Case{Cat: "injector", Form: "func Inject() S { y := 1; _ = y; wire.Build(NewS); return S{} }", Import: "plain"})),
 		known("D20", "C13", "wire.InterfaceValue(new(I), f()) is accepted and the call is copied into the generated package-level variable (the repository's golden test InterfaceValue uses strings.NewReader(...) and pins acceptance)", "C13",
